@@ -56,7 +56,8 @@ class KeySys(HSystem):
         return {'o': HMAC(H.make(self.a), self.keys['short']), 'key': 'short', 'buf': bytearray(20)}
 
     def canon(self, o):
-        return (o['key'], bytes(o['o'].K), bytes(o['buf']))
+        from mc.engine import canon as gcanon
+        return (o['key'], gcanon(o['o']), bytes(o['buf']))
 
     def events(self, o):
         return [('setkey', k) for k in self.keys] + [('mac', 0), ('mac', 1), ('setkey-buf', 0), ('setkey-buf', 1), ('scribble-buf',)]
